@@ -559,8 +559,8 @@ UNITS.append(Unit("C04", "jsonargparse._core:ArgumentParser.parse_env", pe_setup
 
 from contracts.check_type import typehint_call_unit  # noqa: E402
 UNITS.append(typehint_call_unit("C04"))
-from contracts.defaults_units import get_default_unit, set_defaults_unit  # noqa: E402
-UNITS += [set_defaults_unit("C04"), get_default_unit("C04")]
+from contracts.defaults_units import default_config_files_setter_unit, env_prefix_setter_unit, get_config_files_unit, get_default_unit, set_defaults_unit  # noqa: E402
+UNITS += [set_defaults_unit("C04"), get_default_unit("C04"), default_config_files_setter_unit("C04"), env_prefix_setter_unit("C04"), get_config_files_unit("C04")]
 
 
 # `--key+=v` (append) and `--key.item=v` (one item) are argv items that build on the value accumulated so far without writing into it
